@@ -337,18 +337,25 @@ class History(object):
         return problems
 
     # -- the operations ----------------------------------------------------------------------------------
-    def writer(self, target, batch, opts_ok=True, is_instance=False, kind="insert"):
-        """apply random ttl / timestamp / lwt options to an instance or a query set"""
-        rng = self.rng
-        if batch is not None or is_instance:
-            target = target.batch(batch)          # an instance keeps its last batch: always (re)set it
-        if not opts_ok or self.sp.counter:
+    def writer(self, target, batch, opts_ok=True, is_instance=False, kind="insert", row=None):
+        """apply random ttl / timestamp / lwt options to an instance or a query set (none of them is evaluated by the interpreter)"""
+        rng, sp = self.rng, self.sp
+        if is_instance:
+            target = target.batch(batch)          # an instance keeps its last batch and options: always (re)set them
+            if not sp.counter:
+                target.ttl(None)
+                target.if_exists(False)
+                target.if_not_exists(False)
+                target.iff()
+        elif batch is not None:
+            target = target.batch(batch)
+        if not opts_ok or sp.counter:
             return target
         r = rng.random()
         if r < 0.08:
             target = target.ttl(rng.choice([1, 60, 86400]))
             self.note("ttl")
-        elif r < 0.14 and kind != "lwt":
+        elif r < 0.14:
             target = target.timestamp(rng.randint(1, 2 ** 50))
             self.note("timestamp")
         elif r < 0.2 and batch is None:
@@ -358,6 +365,12 @@ class History(object):
             elif kind == "update":
                 target = target.if_exists()
                 self.note("if_exists")
+        elif r < 0.26 and batch is None and kind == "update" and row is not None:
+            cands = [c for c in sp.reg if not c.container and self.get_shadow(row[0], row[1], c) is not None]
+            if cands:
+                c = rng.choice(cands)
+                target = target.iff(**{c.attr: self.get_shadow(row[0], row[1], c)})
+                self.note("iff %s" % c.attr)
         return target
 
     def op_create(self, batch=None, pkey_hint=None):
@@ -494,7 +507,7 @@ class History(object):
         style = rng.random()
         inplace = []
         self.note("modify %r %r via %s" % ((pkey, ckey), changes, "update(**kw)" if style < 0.3 else "setattr+save/update"))
-        target = self.writer(inst, batch, is_instance=True, kind="update")
+        target = self.writer(inst, batch, is_instance=True, kind="update", row=(pkey, ckey) if ckey is not None else None)
         if style < 0.3:
             target.update(**changes)
         else:
@@ -558,7 +571,7 @@ class History(object):
             if pkey is None:
                 return None
         q = sp.model.objects(**self.keys_kw(pkey, ckey))
-        q = self.writer(q, batch, kind="update")
+        q = self.writer(q, batch, kind="update", row=(pkey, ckey))
         kw = {}
         effects = []
         info = []
@@ -905,6 +918,9 @@ def run(ctx):
                     break
                 except UndefinedOp as e:
                     ctx.count("histories_ended_by_an_undefined_case")
+                    ctx.count("undefined:" + str(e)[:45])
+                    if len(ctx.notes) < 3:
+                        ctx.note("undefined case: %s | %s | %s | %r" % (e, seen[-1][0][:700].replace("\n", " | "), " ## ".join(h.trace[-8:]), seen[-1][1]))
                     break
                 if res is None:
                     ctx.count("steps_not_applicable")
